@@ -96,6 +96,12 @@ def thermal_compiled_case(cooling):
             for x in oc.COOLING[name]:
                 term *= yv[slot[alias[x]]]
             tot += term
+        # the other helpers behind the symbols: mean molecular weight = sum A_i y_i / sum y_i, adiabatic index 5/3
+        amass = {"H": 1.0, "H+": 1.0, "He": 4.0, "He+": 4.0, "He++": 4.0, "e-": 0.0}
+        mu_ref = sum(amass[x] * yv[slot[alias[x]]] for x in amass) / npar
+        if not (abs(r["mu"] - mu_ref) <= 1e-12 * mu_ref) or not (abs(r["gamma_helper"] - 5.0 / 3.0) <= 1e-15):
+            viols.append((f"C01:thermal-compiled:helper", f"cooling {cooling}, state {g}: GetMu returns {r['mu']!r} (mass-number weighted mean {mu_ref!r}), GetGamma returns {r['gamma_helper']!r} (5/3)", case))
+            break
         exp = (gam - 1.0) * (0.0 - tot) / KB / npar
         got = r["ydot"][slot["TGAS"]]
         if not (got == exp or abs(got - exp) <= 1e-10 * max(abs(exp), abs(got))):
